@@ -5,6 +5,11 @@ Output: Generated/EscapeTable.lean
 
     Tera.Generated.escapeTable        : List (List Nat)   -- 256 rows; row b = bytes written for input byte b
     Tera.Generated.autoescapeSuffixes : List String
+    Tera.Generated.unsafeKinds        : List String       -- kinds for which `Value::is_safe` answers false
+
+Also insists (raising otherwise) that `Value::is_safe` is a match of the known three arms, that
+`autoescape_enabled` is `autoescape_override.unwrap_or(template.autoescape_enabled)` and that the
+interpreter has exactly the two sink tests and four escape calls the SafeFlow model mirrors.
 
 The extractor insists on the exact loop shape (`for c in input.as_bytes() { match c { <arms> } }`)
 where every arm is either  b'<char>' => buf.write_all(b"<ascii>")?,  or the default
@@ -116,9 +121,62 @@ def suffixes(repo):
     return out
 
 
+KINDS = ["Undefined", "None", "Bool", "U64", "I64", "F64", "U128", "I128", "String", "Array", "Map", "Bytes"]
+
+
+def is_safe_kinds(repo):
+    """`Value::is_safe`: String => kind == Safe; the kinds answering false; everything else true"""
+    text = read(repo, "tera/src/value/mod.rs")
+    body = fn_body(text, r"pub fn is_safe\s*\(\s*&self\s*\)\s*->\s*bool\s*\{")
+    m = re.search(r"match\s+&self\.inner\s*\{(.*)\}", body, re.S)
+    if not m:
+        raise ValueError("Value::is_safe: `match &self.inner` not found")
+    arms = [" ".join(a.split()) for a in m.group(1).split(",") if a.strip()]
+    unsafe, seen_string, seen_default = [], False, False
+    for a in arms:
+        if re.fullmatch(r"ValueInner::String\(s\) => s\.kind\(\) == StringKind::Safe", a):
+            seen_string = True
+            continue
+        f = re.fullmatch(r"((?:ValueInner::\w+\(_\)\s*\|?\s*)+)=> false", a)
+        if f:
+            unsafe += re.findall(r"ValueInner::(\w+)\(_\)", f.group(1))
+            continue
+        if a == "_ => true":
+            seen_default = True
+            continue
+        raise ValueError(f"Value::is_safe: arm not understood: {a!r}")
+    if not (seen_string and seen_default):
+        raise ValueError("Value::is_safe: String arm or default arm missing")
+    if any(k not in KINDS or k == "String" for k in unsafe):
+        raise ValueError(f"Value::is_safe: unknown kinds {unsafe}")
+    return unsafe
+
+
+def sink_shape(repo):
+    """The two sinks and `autoescape_enabled` have the shape the SafeFlow model mirrors."""
+    text = read(repo, "tera/src/vm/interpreter.rs")
+    text = re.sub(r"//[^\n]*", "", text)  # comments do not count
+    ae = fn_body(text, r"fn autoescape_enabled\s*\(\s*&self\s*\)\s*->\s*bool\s*\{")
+    if " ".join(ae.split()) != "self.autoescape_override .unwrap_or(self.template.autoescape_enabled)":
+        raise ValueError("autoescape_enabled is not `autoescape_override.unwrap_or(template.autoescape_enabled)`")
+    counts = {
+        "top": len(re.findall(r"if\s+!self\.autoescape_enabled\(\)\s*\|\|\s*top\.is_safe\(\)\s*\{", text)),
+        "path": len(re.findall(r"if\s+!self\.autoescape_enabled\(\)\s*\|\|\s*val\.is_safe\(\)\s*\{", text)),
+        "esc_captured": len(re.findall(r"\(self\.tera\.escape_fn\)\(escaped,\s*captured\)\?", text)),
+        "esc_output": len(re.findall(r"\(self\.tera\.escape_fn\)\(escaped,\s*output\)\?", text)),
+        "autoescape_tests": len(re.findall(r"autoescape_enabled\(\)", text)),
+    }
+    want = {"top": 1, "path": 1, "esc_captured": 2, "esc_output": 2, "autoescape_tests": 2}
+    if counts != want:
+        raise ValueError(f"sinks of the interpreter changed shape: {counts} (expected {want})")
+    return counts
+
+
 def generate(repo):
     rows = escape_rows(repo)
     sfx = suffixes(repo)
+    unsafe = is_safe_kinds(repo)
+    sink_shape(repo)
     lines = ["namespace Tera.Generated", "",
              "/-- row `b` = the bytes `escape_html` (tera/src/utils.rs) writes for input byte `b` -/",
              "def escapeTable : List (List Nat) := ["]
@@ -129,6 +187,10 @@ def generate(repo):
     lines.append("")
     lines.append("/-- `autoescape_suffixes` of `Tera::default()` (tera/src/tera.rs) -/")
     lines.append("def autoescapeSuffixes : List String := [" + ", ".join('"' + s + '"' for s in sfx) + "]")
+    lines.append("")
+    lines.append("/-- `Value::is_safe` (tera/src/value/mod.rs): a String is safe iff its kind is Safe; these kinds")
+    lines.append("answer `false`; every other kind answers `true` -/")
+    lines.append("def unsafeKinds : List String := [" + ", ".join('"' + k + '"' for k in unsafe) + "]")
     lines.append("")
     lines.append("end Tera.Generated")
     return {"EscapeTable.lean": "\n".join(lines) + "\n"}
